@@ -70,7 +70,6 @@ class SuperObj:
 
 
 class Obligation:
-    __slots__ = ('name', 'goal', 'pc', 'kind', 'status', 'model', 'time', 'path', 'solver', 'info')
 
     def __init__(self, name, goal, pc, kind, path, info=None):
         self.name, self.goal, self.pc, self.kind, self.path = name, goal, pc, kind, path
@@ -261,7 +260,6 @@ class Interp:
         mod.ns['__name__'] = dotted
         mod.tree = tree
         env = Env(mod.ns, None, mod.ns)
-        env.module = mod
         self._mod_stack = getattr(self, '_mod_stack', [])
         self._mod_stack.append(mod)
         try:
@@ -281,6 +279,8 @@ class Interp:
         return None
 
     def relpath(self, mod):
+        if mod.name in self.stdlib_paths:
+            return 'stdlib:' + mod.name
         if mod.path and mod.path.startswith(self.repo_root):
             return os.path.relpath(mod.path, self.repo_root)
         return mod.path or mod.name
@@ -439,7 +439,6 @@ class Interp:
         kwdefaults = {a.arg: self.eval(d, env) for a, d in zip(args.kwonlyargs, args.kw_defaults)
                       if d is not None}
         mod = self.module_of_env(env)
-        cls = getattr(env, 'cls', None) if hasattr(env, 'cls') else None
         if qualprefix is None:
             qualprefix = ''
             if env.func is not None:
@@ -1309,6 +1308,10 @@ class Interp:
             if name == 'args':
                 return tuple(obj.args)
             return _MISSING
+        if isinstance(obj, PropertyObj):
+            if name == 'setter':
+                return Builtin('property.setter', lambda I_, a, k: PropertyObj(obj.fget, a[0]))
+            return _MISSING
         from . import models
         return models.builtin_attr(self, obj, name)
 
@@ -1660,6 +1663,15 @@ class Interp:
                     self.old_mode -= 1
             if nm in ('forall', 'exists'):
                 return self.quantifier(nm, node, env)
+            if nm == 'implies' and len(node.args) == 2:
+                a = self.truth_term(self.eval(node.args[0], env))
+                if isinstance(a, bool):
+                    if not a:
+                        return True
+                    b = self.truth_term(self.eval(node.args[1], env))
+                    return b if isinstance(b, bool) else mk(b, 'bool')
+                b = self.truth_term(self.eval(node.args[1], env))
+                return mk(z3.Implies(a, z3.BoolVal(b) if isinstance(b, bool) else b), 'bool')
         fn = self.eval(node.func, env)
         args = []
         for a in node.args:
